@@ -20,6 +20,7 @@ GNext ==
   \/ \E h \in Handles : DropWake(h) /\ Rec(h, "fd.drop.wake")
   \/ \E h \in Handles : DropDec(h) /\ Rec(h, "fd.drop.dec")
   \/ \E h \in Handles : T2Swap(h) /\ Rec(h, "fd.take.swap")
+  \/ \E h \in Handles : T2None(h) /\ Rec(h, "fd.take.none")
   \/ \E h \in Handles : T2Release(h) /\ Rec(h, "fd.take.none")
   \/ CSwap /\ Rec("C", "fd.take.swap")
   \/ CUnwrap1 /\ Rec("C", "fd.take.unwrap1")
